@@ -520,7 +520,7 @@ func (self Node) Index(i int) (v Node) {
 	if it.Err != nil {
 		return errNode(meta.ErrRead, "", it.Err)
 	}
-	if i >= it.size {
+	if i < 0 || i >= it.size {
 		v = errNode(meta.ErrInvalidParam, fmt.Sprintf("index %d exceeds list/set bound", i), nil)
 		goto ret
 	}
@@ -532,6 +532,9 @@ func (self Node) Index(i int) (v Node) {
 	}
 
 	s, e = it.Next(UseNativeSkipForGet)
+	if it.Err != nil {
+		return errNode(meta.ErrRead, "", it.Err)
+	}
 	v = self.slice(s, e, self.et)
 ret:
 	// it.Recycle()
